@@ -234,8 +234,24 @@ func (fr *frame) get(key ssa.Value) Value {
 	case *ssa.Const:
 		return fr.th.ex.in.constValue(key)
 	case *ssa.Global:
-		fr.th.ex.in.ensureInit(fr.th, key.Pkg)
-		return fr.th.ex.in.global(key)
+		ex := fr.th.ex
+		ex.in.ensureInit(fr.th, key.Pkg)
+		shared := ex.in.global(key)
+		if ex.concreteOnly {
+			return shared // package initialisation writes the shared cells
+		}
+		// every execution works on its own copy of a package variable (value types are
+		// copied; what it points to is still shared): a path cannot leak state to another
+		if c, ok := ex.gcells[key]; ok {
+			return c
+		}
+		if ex.gcells == nil {
+			ex.gcells = map[*ssa.Global]*Value{}
+		}
+		c := new(Value)
+		*c = copyVal(*shared)
+		ex.gcells[key] = c
+		return c
 	}
 	if r, ok := fr.env[key]; ok {
 		return r
